@@ -528,7 +528,11 @@ class MultiVector:
         elif isinstance(data, dict):
             pass
         else:
-            data = {0: data}
+            from pymbolic.primitives import is_zero as _is_zero
+            # A scalar zero has no non-zero coefficient: store it the way arithmetic
+            # results are stored (zero coefficients are pruned), so that it compares
+            # equal to them and is falsy.
+            data = {} if _is_zero(data) else {0: data}
 
         if space is None:
             space = get_euclidean_space(dimensions)
